@@ -27,7 +27,7 @@ PROPS = {
         "assumptions": ["extension values are read from the Debug form of the private structs (Decimal{value}, IPAddr{addr,prefix}, DateTime{epoch}, Duration{ms})"],
     },
     "C11": {
-        "streams": [("c11", 1000, 60000)],
+        "streams": [("c11", 800, 30000)],
         "definitional": False,
         "rule": "one case = one generated schema (2-5 entity types incl. enumerated ones, memberOfTypes DAG, tags, 2-5 actions + groups, "
                 "0-2 namespaces, common types) loaded by the real ValidatorSchema, its conformant store and requests, and ~20 single-fault "
